@@ -103,7 +103,7 @@ def divSisoCore (G H : DTF K) : Except Err (DTF K) := do
 
 /-- `self ** n` for `n : Int`, by the code's recursion (fuel = |n|). -/
 def powNat (G : DTF K) : Nat → Except Err (DTF K)
-  | 0 => pure unity
+  | 0 => pure { (unity : DTF K) with dt := G.dt }      -- `TransferFunction([1], [1], self.dt)`
   | n + 1 => do
     let r ← powNat G n
     mulCore G r
@@ -113,7 +113,7 @@ def recip (G : DTF K) : Except Err (DTF K) :=
   if G.isSiso then divSisoCore unity G else .error .notImplemented
 
 def powNegNat (G : DTF K) : Nat → Except Err (DTF K)
-  | 0 => pure unity
+  | 0 => pure { (unity : DTF K) with dt := G.dt }
   | n + 1 => do
     let i ← recip G
     let r ← powNegNat G n
